@@ -308,7 +308,8 @@ class Verifier:
             res.source_hash = mod.source_hash(fn)
             res.lines = (fn.lineno, fn.end_lineno)
             nloops = len(loops_of(fn))
-            if con.loops and max(con.loops) > nloops:
+            if con.loops and max(con.loops) > nloops and nloops > 0:
+                # (a function that has become loop-free needs no invariants: its obligations are still well defined)
                 res.status = "stale"
                 res.message = f"contract names loop {max(con.loops)} but the function has {nloops} loops"
                 return res
